@@ -571,6 +571,13 @@
   (def k (min 500 (- RG 100)))
   (repeat n (repeat k (set x ['+ 1 x])) (set x ['comptime x]))
   (type ((compile-or-cerr x (make-env)))))
+(defn compose-qq-unquote [n]
+  # a quasiquote template nested almost to its own limit, then an unquote holding a new quasiquote, n levels:
+  # the nesting of a template and the nesting of forms must count against one bound
+  (var x 1)
+  (def k (- RG 124))
+  (repeat n (repeat k (set x [x])) (set x ['unquote ['quasiquote x]]))
+  (type (compile-or-cerr ['quasiquote x] (make-env))))
 (defn compose-peg-in-peg [n]
   (def k (div (- RG 100) 3))
   (def text (string (rep "(" k) "x" (rep ")" k)))
@@ -586,6 +593,7 @@
   @{"compose/compile-in-macro" compose-compile-in-macro
     "compose/comptime" compose-comptime
     "compose/peg-in-peg" compose-peg-in-peg
+    "compose/quasiquote-unquote" compose-qq-unquote
     "compose/reentry-marshal" (fn [n] (at-reentry-depth |(length (marshal (mk-arr n)))))
     "compose/reentry-compile" (fn [n] (at-reentry-depth |(type (compile-or-cerr ((form-shapes "fn") n) (make-env)))))
     "compose/reentry-fmt-j" (fn [n] (at-reentry-depth |(length (string/format "%j" (mk-tab n)))))
@@ -596,7 +604,7 @@
     "compose/reentry-unmarshal" (fn [n] (at-reentry-depth |(type (unmarshal ((image-shapes "mixed") n)))))
     "compose/reentry-parse" (fn [n] (at-reentry-depth |(type (parse ((parse-shapes "mixed") n)))))})
 (def compose-consumer-names
-  ["compose/compile-in-macro" "compose/comptime" "compose/peg-in-peg" "compose/reentry-marshal" "compose/reentry-compile"
+  ["compose/compile-in-macro" "compose/comptime" "compose/peg-in-peg" "compose/quasiquote-unquote" "compose/reentry-marshal" "compose/reentry-compile"
    "compose/reentry-fmt-j" "compose/reentry-fmt-p" "compose/reentry-gc" "compose/reentry-peg" "compose/reentry-pegc"
    "compose/reentry-unmarshal" "compose/reentry-parse"])
 
